@@ -2,8 +2,9 @@
 // src/heads.rs `AuthorHeads::insert` is `self.heads.entry(author).and_modify(|t| *t = (*t).max(timestamp)).or_insert(timestamp)`.
 // `BTreeMap::entry`, the `Entry` type, `and_modify` (closure over `&mut V`) and `or_insert` have no Verus specification
 // and cannot be given one from outside vstd, so the function is represented by its ASSUMED contract (max-merge).
-// The same contract is checked on the real function, bounded to three authors, by the Kani harness
-// kani/heads.harness.rs :: heads_insert_max_merge.
+// A bounded Kani harness for this contract was attempted and abandoned: CBMC does not get through std's BTreeMap node
+// code (no result within 10 minutes even with two concrete authors). The contract is exercised on the real function by
+// the concrete small-domain test replay/cases/heads_encode.rs :: insert_is_max_merge (a test, not a proof).
 impl AuthorHeads {
     #[verifier::external_body]
     fn insert(&mut self, author: AuthorId, timestamp: Timestamp)
